@@ -32,7 +32,8 @@ TWrite ==
 
 TGet     == Is("get")     /\ Get(E.k)          /\ res' = <<E.err, E.v>>
 THas     == Is("has")     /\ Has(E.k)          /\ res' = <<E.err, E.r = 1>>
-TCompact == Is("compact") /\ Compact           /\ res' = <<E.err>>
+TCompact == Is("compact") /\ Compact /\ (res'[1] = E.err \/ (res'[1] = "ro-any" /\ E.err \in {"none", "readonly"}))
+TMisc    == Is("misc")    /\ Misc              /\ res' = <<E.err>>
 TSnap    == Is("snap")    /\ GetSnapshot(E.h)  /\ res' = <<E.err>>
 ErrIs(r, e) == r = e \/ (r = "gone" /\ e \in {"closed", "released"})
 TSnapGet == Is("snapget") /\ SnapGet(E.h, E.k) /\ ErrIs(res'[1], E.err) /\ res'[2] = E.v
@@ -65,7 +66,7 @@ TraceNext ==
      \/ TSnap \/ TSnapGet \/ TSnapHas \/ TSnapRel
      \/ TIterNew \/ TIter \/ TIterRel
      \/ TTxOpen \/ TTxWrite \/ TTxGet \/ TTxHas \/ TTxCommit \/ TTxDiscard
-     \/ TClose \/ TReopen \/ TSetRO \/ TNote \/ TOpen2 \/ TQuiet \/ TIntact
+     \/ TClose \/ TReopen \/ TSetRO \/ TNote \/ TMisc \/ TOpen2 \/ TQuiet \/ TIntact
   /\ TLCSet(1, IF TLCGet(1) < l' THEN l' ELSE TLCGet(1))
 
 TraceSpec == TraceInit /\ [][TraceNext]_tvars
